@@ -1,6 +1,8 @@
 package main
 
 import (
+	"go/token"
+	"regexp"
 	"encoding/json"
 	"fmt"
 	"go/types"
@@ -51,6 +53,9 @@ type replayCtx struct {
 	refVars map[string]string // "ptr:<ref>" -> go variable
 	needReader bool
 	script     string
+	nilPrefs    []string // tags of interface values the harness can only build as nil
+	unbuildable []string // non-nil interface values of types the harness cannot construct
+	streamTerms [][2]string // (sn, spos) probe terms of the io.Reader inputs
 }
 
 const replayReader = `
@@ -240,8 +245,54 @@ func (rc *replayCtx) plan(x string, t types.Type, depth int) *cval {
 			c.fields = append(c.fields, rc.plan("("+u.tc.fieldSel(sn, i)+" "+x+")", st.Field(i).Type(), depth+1))
 		}
 	case KIface:
+		if ts := types.TypeString(t, nil); strings.HasSuffix(ts, "/internal/runningstatus.Reader") || strings.HasSuffix(ts, "/internal/runningstatus.SMFWriter") {
+			// the running-status helpers of the library: built with their constructor, the status is set by
+			// feeding them a status byte
+			c.kind = "rstatus"
+			c.i = big.NewInt(0)
+			rc.probes = append(rc.probes, probeReq{"(i-tag " + x + ")", func(v *sx) {
+				r, _ := sxInt(v)
+				c.isNil = r == nil || r.Sign() == 0
+				if r != nil {
+					c.ref = r.Int64()
+				}
+			}})
+			rsPkg := u.eng.pkgByName["runningstatus"]
+			if rsPkg != nil {
+				impl := "smfreader"
+				if strings.HasSuffix(ts, "SMFWriter") {
+					impl = "smfwriter"
+				}
+				if obj := rsPkg.Pkg.Scope().Lookup(impl); obj != nil {
+					c.cap = int64(u.eng.typeTag(types.NewPointer(obj.Type())))
+					st := obj.Type().Underlying().(*types.Struct)
+					hn, _, _ := u.fieldHeapName(obj.Type(), 0)
+					if init, ok := rc.heapInit(hn); ok {
+						term := "(select " + init + " (i-val " + x + "))"
+						if impl == "smfreader" {
+							// smfreader{reader{status}}
+							inner := st.Field(0).Type()
+							term = "(" + u.tc.fieldSel(u.tc.structName(inner), 0) + " " + term + ")"
+						}
+						rc.probes = append(rc.probes, probeReq{term, func(v *sx) {
+							if r, ok := sxInt(v); ok {
+								c.i = r
+							}
+						}})
+					}
+				}
+			}
+			return c
+		}
 		if types.TypeString(t, nil) != "io.Reader" {
 			c.kind = "unsupported"
+			rc.nilPrefs = append(rc.nilPrefs, "(i-tag "+x+")")
+			// a non-nil value of an interface type the harness cannot build makes the model unusable
+			rc.probes = append(rc.probes, probeReq{"(i-tag " + x + ")", func(v *sx) {
+				if r, _ := sxInt(v); r != nil && r.Sign() != 0 {
+					rc.unbuildable = append(rc.unbuildable, types.TypeString(t, nil))
+				}
+			}})
 			return c
 		}
 		c.kind = "stream"
@@ -256,6 +307,9 @@ func (rc *replayCtx) plan(x string, t types.Type, depth int) *cval {
 				return "(select " + init + " " + id + ")"
 			}
 			return ""
+		}
+		if t, sp := gf("sn"), gf("spos"); t != "" && sp != "" {
+			rc.streamTerms = append(rc.streamTerms, [2]string{t, sp})
 		}
 		if t := gf("sn"); t != "" {
 			rc.probes = append(rc.probes, probeReq{t, func(v *sx) {
@@ -409,6 +463,20 @@ func (rc *replayCtx) goExpr(c *cval) (string, error) {
 		}
 		for name, id := range rc.u.eng.errIDs {
 			if int64(id) == c.i.Int64() {
+				// name is pkg.Var: drop the qualifier inside the package itself, import it otherwise
+				if i := strings.Index(name, "."); i > 0 {
+					pn := name[:i]
+					if pn == rc.pkg.Name() {
+						return name[i+1:], nil
+					}
+					if p := rc.u.eng.pkgByName[pn]; p != nil {
+						rc.imports[p.Pkg.Path()] = pn
+						if !token.IsExported(name[i+1:]) {
+							rc.imports["errors"] = "errors"
+							return `errors.New("govc replay error")`, nil
+						}
+					}
+				}
 				return name, nil
 			}
 		}
@@ -522,6 +590,18 @@ func (rc *replayCtx) goExpr(c *cval) (string, error) {
 		}
 		rc.needReader = true
 		return fmt.Sprintf("io.Reader(&govcReader{data: []byte{%s}, sched: []govcStep{%s}, faulted: %d != 0})", strings.Join(bs, ","), strings.Join(steps, ", "), pre), nil
+	case "rstatus":
+		if c.isNil {
+			return rc.zeroLit(c.goT), nil
+		}
+		if c.ref != c.cap {
+			return "", fmt.Errorf("running-status helper of an unexpected dynamic type (tag %d)", c.ref)
+		}
+		rc.imports["gitlab.com/gomidi/midi/v2/internal/runningstatus"] = "runningstatus"
+		if strings.HasSuffix(types.TypeString(c.goT, nil), "SMFWriter") {
+			return fmt.Sprintf("func() runningstatus.SMFWriter { x := runningstatus.NewSMFWriter(); if %[1]d != 0 { x.Write([]byte{%[1]d, 0, 0}) }; return x }()", c.i.Int64()), nil
+		}
+		return fmt.Sprintf("func() runningstatus.Reader { x := runningstatus.NewSMFReader(); if %[1]d != 0 { x.Read(byte(%[1]d)) }; return x }()", c.i.Int64()), nil
 	case "struct":
 		st := c.goT.Underlying().(*types.Struct)
 		var fs []string
@@ -640,6 +720,7 @@ func govcErrStr(v reflect.Value) string {
 type replayOutcome struct {
 	Pre     []interface{} `json:"pre"`
 	Panic   string        `json:"panic"`
+	Stack   string        `json:"stack"`
 	Results []interface{} `json:"results"`
 	Post    []interface{} `json:"post"`
 	Log     []interface{} `json:"log"`
@@ -655,7 +736,25 @@ func replayObligation(e *Engine, u *Unit, o *Obligation, repo, dir string) (bool
 	if fn == nil {
 		return false, notePath
 	}
-	confirmed, text, why := doReplay(e, u, o, fn, repo)
+	// the model is sought first with the spec functions as plain definitions (an opaque or abstract function is
+	// uninterpreted in the proof script, so its values in a model of that script need not be the real ones)
+	var scripts []string
+	if o.Result == "sat" {
+		if o.candText != "" && o.candText != o.scriptText {
+			scripts = append(scripts, o.candText)
+		}
+		scripts = append(scripts, o.scriptText)
+	} else {
+		scripts = append(scripts, o.Candidate)
+	}
+	var confirmed bool
+	var text, why string
+	for _, sc := range scripts {
+		confirmed, text, why = doReplay(e, u, o, fn, repo, sc)
+		if confirmed {
+			break
+		}
+	}
 	if text != "" {
 		goPath := base + "_replay_test.go"
 		os.WriteFile(goPath, []byte(text), 0o644)
@@ -677,16 +776,13 @@ func appendNote(p, s string) {
 	}
 }
 
-func doReplay(e *Engine, u *Unit, o *Obligation, fn *ssa.Function, repo string) (confirmed bool, harness string, why string) {
+func doReplay(e *Engine, u *Unit, o *Obligation, fn *ssa.Function, repo string, useScript string) (confirmed bool, harness string, why string) {
 	defer func() {
 		if r := recover(); r != nil {
 			why = fmt.Sprintf("replay generator failed: %v", r)
 		}
 	}()
-	rc := &replayCtx{u: u, fn: fn, imports: map[string]string{}, pkg: fn.Pkg.Pkg, refVars: map[string]string{}, script: o.scriptText}
-	if o.Result != "sat" && o.Candidate != "" {
-		rc.script = o.Candidate
-	}
+	rc := &replayCtx{u: u, fn: fn, imports: map[string]string{}, pkg: fn.Pkg.Pkg, refVars: map[string]string{}, script: useScript}
 	// 1. plan probes for every parameter
 	var params []*cval
 	var pterms []string
@@ -708,10 +804,7 @@ func doReplay(e *Engine, u *Unit, o *Obligation, fn *ssa.Function, repo string) 
 		return false, "", "closures are not replayed directly"
 	}
 	// 2. ask the solver again, with the probes; prefer small models (short slices, zero offsets)
-	script := strings.TrimSuffix(o.scriptText, "\n")
-	if o.Result != "sat" && o.Candidate != "" {
-		script = strings.TrimSuffix(o.Candidate, "\n")
-	}
+	script := strings.TrimSuffix(useScript, "\n")
 	if i := strings.LastIndex(script, "(check-sat)"); i >= 0 {
 		script = script[:i]
 	}
@@ -734,6 +827,12 @@ func doReplay(e *Engine, u *Unit, o *Obligation, fn *ssa.Function, repo string) 
 		if bound >= 0 {
 			for _, st := range sliceTerms {
 				sb.WriteString(fmt.Sprintf("(assert (and (<= (s-len %[1]s) %[2]d) (= (s-off %[1]s) 0) (<= (s-cap %[1]s) (+ (s-len %[1]s) 8))))\n", st, bound))
+			}
+			for _, tg := range rc.nilPrefs {
+				sb.WriteString(fmt.Sprintf("(assert (= %s 0))\n", tg))
+			}
+			for _, st := range rc.streamTerms {
+				sb.WriteString(fmt.Sprintf("(assert (<= (- %s %s) %d))\n", st[0], st[1], 4*bound))
 			}
 		}
 		sb.WriteString("(check-sat)\n(get-value (")
@@ -768,6 +867,9 @@ func doReplay(e *Engine, u *Unit, o *Obligation, fn *ssa.Function, repo string) 
 		if len(pair.list) == 2 {
 			pr.into(pair.list[1])
 		}
+	}
+	if len(rc.unbuildable) > 0 {
+		return false, "", "model not replayable: it needs a non-nil value of interface type " + strings.Join(rc.unbuildable, ", ") + ", which the harness cannot construct"
 	}
 	// 3. Go harness
 	var args []string
@@ -809,7 +911,7 @@ func doReplay(e *Engine, u *Unit, o *Obligation, fn *ssa.Function, repo string) 
 		}
 		body.WriteString("\tout := map[string]interface{}{}\n\tout[\"pre\"] = []interface{}{" + strings.Join(pres, ", ") + "}\n")
 	}
-	body.WriteString("\tfunc() {\n\t\tdefer func() {\n\t\t\tif r := recover(); r != nil {\n\t\t\t\tout[\"panic\"] = fmt.Sprint(r)\n\t\t\t}\n\t\t}()\n")
+	body.WriteString("\tfunc() {\n\t\tdefer func() {\n\t\t\tif r := recover(); r != nil {\n\t\t\t\tout[\"panic\"] = fmt.Sprint(r)\n\t\t\t\tout[\"stack\"] = string(debug.Stack())\n\t\t\t}\n\t\t}()\n")
 	if nres > 0 {
 		body.WriteString("\t\t" + strings.Join(lhs, ", ") + " := " + call + "\n")
 		var encs []string
@@ -831,6 +933,7 @@ func doReplay(e *Engine, u *Unit, o *Obligation, fn *ssa.Function, repo string) 
 	body.WriteString("\tif out[\"panic\"] != nil {\n\t\tt.Logf(\"panic on the real code: %v\", out[\"panic\"])\n\t}\n")
 
 	rc.imports["testing"] = "testing"
+	rc.imports["runtime/debug"] = "debug"
 	rc.imports["fmt"] = "fmt"
 	rc.imports["encoding/json"] = "json"
 	rc.imports["reflect"] = "reflect"
@@ -859,6 +962,18 @@ func doReplay(e *Engine, u *Unit, o *Obligation, fn *ssa.Function, repo string) 
 		return false, harness, "harness did not run: " + runErr
 	}
 	// 5. verdict
+	if outc.Panic != "" {
+		// a panic confirms the obligation only if it is raised where the obligation says (a harness that could
+		// not establish the precondition may well panic somewhere else)
+		if loc := srcLoc(o.Src); loc != "" && strings.HasPrefix(o.Kind, "safe") && !strings.Contains(outc.Stack, "/"+loc+" ") && !strings.Contains(outc.Stack, "/"+loc+"\n") {
+			return false, harness + "\n// OBSERVED on the real code: panic: " + outc.Panic + " (not at " + loc + ")\n", "a panic was observed on the real code, but not at " + loc + ": " + outc.Panic
+		}
+	}
+	if outc.Panic != "" {
+		if rq := preconditionBroken(e, u, fn, outc); rq != "" {
+			return false, harness + "\n// OBSERVED on the real code: panic: " + outc.Panic + "\n// but the harness did not establish the precondition: " + rq + "\n", "a panic was observed, but the harness did not establish the precondition (" + rq + ")"
+		}
+	}
 	if strings.HasPrefix(o.Kind, "safe") {
 		if outc.Panic != "" {
 			return true, harness + "\n// OBSERVED on the real code: panic: " + outc.Panic + "\n", "panic observed on the real code: " + outc.Panic
@@ -877,6 +992,17 @@ func doReplay(e *Engine, u *Unit, o *Obligation, fn *ssa.Function, repo string) 
 		return true, harness + "\n// OBSERVED on the real code: " + string(js) + "\n// the clause evaluates to FALSE on these observed values (" + detail + ")\n", "clause false on the real code"
 	}
 	return false, harness + "\n// OBSERVED on the real code: " + string(js) + "\n// " + detail + "\n", detail
+}
+
+var reSrcLoc = regexp.MustCompile(`([A-Za-z0-9_./-]+\.go):(\d+)`)
+
+// srcLoc extracts "dir/file.go:line" from the source note of an obligation.
+func srcLoc(src string) string {
+	m := reSrcLoc.FindStringSubmatch(src)
+	if m == nil {
+		return ""
+	}
+	return m[1] + ":" + m[2]
 }
 
 func runHarness(repo string, fn *ssa.Function, harness, tmpd string) (*replayOutcome, string) {
